@@ -263,7 +263,7 @@ func ruleC07Encode(rule string) func(p *Prog, r *Result) {
 		// who may call the encoders: only the validating entry point and the encoder family itself
 		allowed := map[string]map[string]bool{
 			"bkl.process2EncodeAny":    {"bkl.process2Encode": true, "bkl.process2EncodeAny": true, "bkl.process2EncodeString": true},
-			"bkl.process2EncodeString": {"bkl.process2EncodeAny": true},
+			"bkl.process2EncodeString": {"bkl.process2EncodeAny": true, "bkl.process2EncodeString": true},
 		}
 		for callee, who := range allowed {
 			fn := p.Func(callee)
@@ -715,15 +715,42 @@ func ruleC13(p *Prog, r *Result) {
 		return
 	}
 	ci := newPSRule(p, r, "C13.error", p.FuncName(closure), PSOpts{NoInline: map[string]bool{"bkl.getWithVar": true, "bkl.process2": true}})
+	cellEntry := func(t *T) bool { return t != nil && t.Op == "freeval" && t.Name == "err" }
 	ci.all("a failed lookup or nested evaluation is recorded in the captured error", selectPaths(ci.paths, func(pa *Path) bool {
 		return guardPol(pa, "err", mCall("bkl.getWithVar"), nil) == 1 || guardPol(pa, "err", mCall("bkl.process2"), nil) == 1
 	}), "err cell receives the error", func(pa *Path) (bool, string) {
+		if guardPol(pa, "err", cellEntry, nil) == 1 {
+			return true, "" // an earlier reference's error is already recorded and is kept
+		}
 		for _, e := range pa.Effects {
 			if e.Kind == "cellset" && e.Callee == "err" && (mCall("bkl.getWithVar")(e.Args[0]) || mCall("bkl.process2")(e.Args[0])) {
 				return true, ""
 			}
 		}
 		return false, "a failing reference is replaced by text without recording the error (empty/garbage substitution instead of an error)"
+	})
+	// the callback runs once per reference and shares one error cell: an error recorded by an earlier
+	// reference must survive the later ones (a later successful lookup must not reset it to nil)
+	ci.all("an error recorded by an earlier reference is not overwritten by a later one", ci.paths, "the callback writes the error cell only when it was nil on entry, or writes a non-nil error", func(pa *Path) (bool, string) {
+		if guardPol(pa, "err", cellEntry, nil) == -1 {
+			return true, ""
+		}
+		var last *T
+		for _, e := range pa.Effects {
+			if e.Kind == "cellset" && e.Callee == "err" {
+				last = e.Args[0]
+			}
+		}
+		if last == nil {
+			return true, ""
+		}
+		if last.Op == "call" && (last.Name == "fmt.Errorf" || last.Name == "errors.New") {
+			return true, ""
+		}
+		if !last.IsNil() && guardPol(pa, "err", mIs(last), nil) == 1 {
+			return true, ""
+		}
+		return false, "the shared error cell may hold an earlier reference's error on entry and is overwritten with " + truncate(last.String(), 80) + " (possibly nil): a failing reference followed by a resolvable one evaluates successfully"
 	})
 	ci.all("a successful reference is rendered with %v", selectPaths(ci.paths, func(pa *Path) bool {
 		return guardPol(pa, "err", mCall("bkl.getWithVar"), nil) == -1 && guardPol(pa, "err", mCall("bkl.process2"), nil) != 1 && pa.End == "return"
